@@ -24,6 +24,7 @@ CONSTANTS
   MinSteps = 3
   MaxSteps = 4
   RationalOnly = TRUE
+  Twins = FALSE
   NeedDt = FALSE
   BindLeaves = TRUE
   EmitOn = TRUE
